@@ -32,6 +32,10 @@ def corpus(rng, thorough):
           [], [1, 2, 3], [1, "a", b"b", None, [2.5, {"k": (1, 2)}]], (), (1,), (1, (2, (3, (4,)))), {}, {"a": 1}, {1: {2: {3: [4, 5, {6}]}}}, set(), {1, 2, 3}, frozenset({"x"}),
           IntSub(5), IntSub(10 ** 50), StrSub("s"), StrSub(""), BytesSub(b"b"), DictSub(a=1), ListSub([1, 2]), Point(1, [2, 3]),
           b"\x00" * 1000, bytes(rng.randrange(256) for _ in range(1000)), "a" * 10000, list(range(1000)), "0" * 500, b"9" * 11, "12", b"12"]
+    # values whose compressed form is exactly as long as the plain form under some codec (the "equal" boundary)
+    vs += [b"a" * n for n in range(1, 40)] + [b"\x00" * n for n in (11, 12, 13, 401, 402)] + ["ab" * k for k in range(1, 12)]
+    # equal-but-differently-typed scalars next to each other, in both orders (history dependence)
+    vs += [1.0, True, 1.0, 0.0, False, 0.0, -0.0, 0.0, 1, 1.0, True, 1, None, 0, False]
     for d in (9, 10, 11, 12):
         vs.append(int("9" * d))
         vs.append(-int("9" * d))
